@@ -250,6 +250,22 @@ def run(prop, tier, seed, known):
             # ---------------------------------------------------------------- pattern occurrences that list an event twice (accepted by validate): ranges only
             dp = [[list(occ) + [occ[0]] for occ in pt] for pt in ep]
             pd = guard('pattern.evaluate with a repeated event', lambda: pattern.evaluate(rp, dp))
+            sd = guard('pattern.evaluate (swapped) with a repeated event', lambda: pattern.evaluate(dp, rp))
+            if pd is not None and sd is not None:
+                for a_, b_ in (('P_est', 'R_est'), ('P_occ.75', 'R_occ.75'), ('P_occ.5', 'R_occ.5'), ('P_3', 'R_3')):
+                    if abs(pd[a_] - sd[b_]) > 1e-9 or abs(pd[b_] - sd[a_]) > 1e-9:
+                        fails.append('pattern swap with a repeated event: %s=%r vs %s=%r' % (a_, pd[a_], b_, sd[b_]))
+            # C04: the first-n scores are the establishment recall / three-layer precision of the first n estimated patterns
+            many = ep + [pat() for _ in range(2)]
+            for nn in (1, 2, 3):
+                got_r = guard('first_n_target_proportion_R', lambda: pattern.first_n_target_proportion_R(rp, many, n=nn))
+                got_p = guard('first_n_three_layer_P', lambda: pattern.first_n_three_layer_P(rp, many, n=nn))
+                if got_r is not None and got_p is not None:
+                    want_r = pattern.establishment_FPR(rp, many[:nn])[2]
+                    want_p = pattern.three_layer_FPR(rp, many[:nn])[1]
+                    if abs(got_r - want_r) > 1e-12 or abs(got_p - want_p) > 1e-12:
+                        fails.append('first-n pattern scores (n=%d) = (%r, %r), its definition gives (%r, %r) on the first n of %d estimated patterns'
+                                     % (nn, float(got_r), float(got_p), float(want_r), float(want_p), len(many)))
             if pd is not None:
                 for key, v in pd.items():
                     if not (np.isfinite(v) and v >= -1e-9) or (key not in ('P', 'F') and v > 1 + 1e-9):
